@@ -28,14 +28,31 @@ pub fn digest_model(challenge: u32, cookie: &str) -> [u8; 16] {
     [c[0], c[1], c[2], c[3], b.len() as u8, first, 0xA5, 0x5A, c[3] ^ 0xff, c[2], c[1], c[0], 1, 2, 3, 4]
 }
 
-pub static mut LAST_CHALLENGE: u32 = 0;
-/// `digest::generate_challenge` reads the wall clock: any u32, remembered so the harness can state the property
+pub static mut NEXT_CHALLENGE: u32 = 0;
+/// `digest::generate_challenge` reads the wall clock.  The harness draws an arbitrary u32 *before* the
+/// call and registers it here (under Kani) or through the guarded `verif_hooks::force_challenge`
+/// (native replay), so the same value is used in both worlds.
 pub fn challenge_model() -> u32 {
-    let v = crate::vk::u32();
+    unsafe { NEXT_CHALLENGE }
+}
+pub fn register_challenge(v: u32) {
+    #[cfg(kani)]
     unsafe {
-        LAST_CHALLENGE = v;
+        NEXT_CHALLENGE = v;
     }
-    v
+    #[cfg(all(not(kani), edp_rs_verif))]
+    edp_client::verif_hooks::force_challenge(v);
+}
+/// the digest function the peer model uses: the injective model under Kani, real MD5 natively
+pub fn digest_fn(challenge: u32, cookie: &str) -> [u8; 16] {
+    #[cfg(kani)]
+    {
+        digest_model(challenge, cookie)
+    }
+    #[cfg(not(kani))]
+    {
+        edp_client::digest::compute_digest(challenge, cookie)
+    }
 }
 
 // ---- tracing: log emission -> empty bodies (a reachable `trace!` otherwise drags in thread-local
